@@ -378,6 +378,8 @@ class CSSStyleSheet(cssutils.stylesheets.StyleSheet):
                 # reset, also if an exception is raised (raising mode)
                 self._cssRules = oldCssRules
                 self._namespaces = oldNamespaces
+                # drop what the rejected text has defined
+                self._variables = CSSVariablesDeclaration()
                 self._updateVariables()
                 self._cleanNamespaces()
 
